@@ -22,6 +22,13 @@ OBLIGATIONS = [
     "KafVerif.C10.readFrame_writeFrame",
     "KafVerif.C10.readFrames_stream",
     "KafVerif.C10.parse_depends_only_on_frame",
+    "KafVerif.C10.parseRequestBody_total",
+    "KafVerif.C10.parseRequest_total",
+    "KafVerif.C10.parseRequest_ok_iff",
+    "KafVerif.C10.parseRequest_decode_error",
+    "KafVerif.C10.parseRequest_malformed_body_any_client_id",
+    "KafVerif.C10.parseRequestDeref_panics",
+    "KafVerif.C10.parseRequestDeref_needs_null_client_id",
 ]
 BUILDS = {
     "h": ("root", "./cmd/verif_c10", ["C10"]),
@@ -37,7 +44,10 @@ LEVEL_TEXT = ("Lean theorems over the model of byteReader/SkipTaggedFields/Parse
               "(no panic) for every byte string, body-is-suffix, header round trip for every well-formed header and "
               "body, frame round trip; tied to the code by a differential run (real parser vs model) incl. an "
               "exhaustive short-suffix enumeration, and a kmsg encode->ParseRequest->re-encode round trip over every "
-              "kmsg request key x version.")
+              "kmsg request key x version.  Body stage: ParseRequest = header + ParseRequestBody is total for every byte string, every "
+              "header (client id treated as Option: null included) and every verdict of the kmsg decoder (parseRequest_total, "
+              "parseRequest_ok_iff, parseRequest_decode_error), tied by `preq` ops over {client id null/empty/short/32767 bytes} x "
+              "{body valid / cut at every length / garbage / trailing bytes} x every kmsg (key, version).")
 LEVEL_NOTE = ("The header round trip (parseHeader_encode_tags) holds for every well-formed tagged-field section (count/tags < 2^64, "
               "field sizes < 2^63), with uvarint_roundtrip and skipTagged_exact as its lemmas; the model's encoder is compared with "
               "Go's encoding/binary on every run (`enc` ops).  The body codec is kmsg (parameter).")
@@ -48,6 +58,8 @@ ASSUMPTIONS = [
     "the harness asserts it is a per-key threshold",
     "ReadFrame's make([]byte, length) for a lying length up to 2 GiB is resource use, not a crash as modelled",
     "request bodies are decoded by kmsg (trusted codec); the check compares re-encoded bodies for the 21 served keys",
+    "kmsg's ReadFrom returns a value or an error and does not panic (the `dec` parameter of parseRequest_total is a total function); "
+    "validated on every body variant of the run: kmsg alone is run on each (`kdec`), a panic there or in ParseRequest is a violation",
     "parses do not share mutable state (each connection goroutine parses independently) - not provable in the sequential model; "
     "validated by the concurrent + race-detector run, which can only see interleavings that actually occur within its ~3 s",
 ]
@@ -249,6 +261,96 @@ def mutate(rng, b):
     return bytes(b)
 
 
+SERVED = {0, 1, 2, 3, 8, 9, 10, 11, 12, 13, 14, 15, 16, 18, 19, 20, 23, 32, 33, 37, 42}   # keys pkg/protocol/api.go declares
+BIG_CID = b"k" * 32767
+
+
+def req_header(key, ver, corr, cid, flex):
+    """Request header as a client writes it (empty tagged-field section on flexible versions)."""
+    hdr = struct.pack(">hhi", key, ver, corr) + (b"\xff\xff" if cid is None else struct.pack(">H", len(cid)) + cid)
+    if key in flex and ver >= flex[key]:
+        hdr += b"\x00"
+    return hdr
+
+
+def body_variants(rng, key, body, full):
+    """(label, bytes): the valid body, every truncation (selected ones when not `full`), garbage, trailing bytes."""
+    out = [("valid", body)]
+    cuts = range(len(body)) if full else sorted({0, 1, len(body) // 2, max(0, len(body) - 1)} & set(range(len(body))))
+    out += [("cut", body[:i]) for i in cuts]
+    out += [("garbage", rng.bytes(n)) for n in (1, 7, 40)]
+    out += [("garbage", b"\xff" * max(1, len(body))), ("garbage", b"\x7f" + body[1:]), ("garbage", mutate(rng, body) if body else b"\x80")]
+    out += [("trailing", body + b"\x00"), ("trailing", body + rng.bytes(5))]
+    return out
+
+
+def body_stage_cases(ck, flex, rts, per_kv=1):
+    """The cross product {client id: null, empty, short, 32767 bytes} x {body: valid, truncated at every length, garbage, trailing
+    bytes} x every kmsg (key, version) (every length for the keys the broker serves): [(label, key, ver, body variant, frame)]."""
+    seen, cases, vmaxes = {}, [], {}
+    for r in rts:
+        f = r.split()
+        vmaxes[int(f[1])] = max(vmaxes.get(int(f[1]), 0), int(f[2]))
+    for r in rts:
+        f = r.split()
+        key, ver = int(f[1]), int(f[2])
+        if seen.get((key, ver), 0) >= per_kv:
+            continue
+        seen[(key, ver)] = seen.get((key, ver), 0) + 1
+        raw = bytes.fromhex(f[5]) if f[5] != "-" else b""
+        parsed = ref_header(raw, flex)
+        if not parsed.startswith("ok"):
+            continue
+        b = parsed.split("body=")[1]
+        body = bytes.fromhex(b) if b != "-" else b""
+        served = key in SERVED
+        corr = ck.rng.choice([0, 1, -1, 2 ** 31 - 1, -2 ** 31, ck.rng.below(2 ** 31)])
+        for label, var in body_variants(ck.rng, key, body, served):
+            for cname, cid in (("null", None), ("empty", b""), ("short", b"c")) if (served or label != "cut") else (("null", None), ("short", b"c")):
+                cases.append(("%s:%s" % (label, cname), key, ver, var, req_header(key, ver, corr, cid, flex) + var))
+        if served and (ver == vmaxes[key] or (key == 18 and ver in (0, flex.get(18, 3)))):
+            # the longest client id a header can carry (32767 bytes; costly for the model's interpreter, hence one version per served
+            # key, ApiVersions also at v0 and its first flexible version), with a half / valid / empty / garbage body
+            big = [("cut", body[:len(body) // 2])]
+            if key == 18 or key % 2 == 1:
+                big.append(("valid", body))
+            if key == 18:
+                big += [("cut", b""), ("garbage", b"\xff" * 9)]
+            for label, var in big:
+                cases.append(("%s:max" % label, key, ver, var, req_header(key, ver, corr, BIG_CID, flex) + var))
+    # keys kmsg does not know: the `unsupported api key` path, with and without a client id
+    for key in (200, -1, 32767, 7000):
+        for cid in (None, b"", b"c"):
+            cases.append(("unknown-key:" + ("null" if cid is None else "cid"), key, 0, b"\x00\x01", req_header(key, 0, 5, cid, flex) + b"\x00\x01"))
+    return cases
+
+
+def body_stage_ops(ck, binary, flexline, flex, rts, per_kv=1):
+    """Oracle pass (kmsg alone on each body variant: `kdec`), then the `preq <oracle> <frame>` ops."""
+    cases = body_stage_cases(ck, flex, rts, per_kv)
+    kops = sorted({"kdec %d %d %s" % (k, v, lib.hexs(var)) for _, k, v, var, _ in cases})
+    impl, _, alive = run_ops(ck, binary, [flexline] + kops, "kdec")
+    if not alive:
+        return None
+    oracle = dict(zip(kops, impl[1:]))
+    ops = []
+    PREQ_LABEL.clear()
+    for label, k, v, var, frame in cases:
+        o = oracle["kdec %d %d %s" % (k, v, lib.hexs(var))].split()[-1]
+        ck.count("kmsg-oracle:%s:%s" % (label.split(":")[0], o))
+        if label.startswith("valid") and o != "ok":
+            ck.violation("roundtrip-mismatch", "kmsg rejects the body it encoded itself for key %d v%d (%s)" % (k, v, o),
+                         {"ops": [flexline, "kdec %d %d %s" % (k, v, lib.hexs(var))], "actual": "kdec " + o})
+        op = "preq %s %s" % (o, lib.hexs(frame))
+        PREQ_LABEL[op] = label
+        ops.append(op)
+    ck.count("body_stage_cases", len(ops))
+    return ops
+
+
+PREQ_LABEL = {}
+
+
 FLEX = {}     # kmsg's flexibility table, taken from the `flex` op every op file starts with (replays carry it too)
 ENC = {}      # enc op -> header bytes the generator wrote into the following hdr op
 
@@ -277,7 +379,28 @@ def monitor_line(op, out):
             return ("tagged-section-not-consumed-exactly",
                     "SkipTaggedFields did not consume exactly the tagged-field section (expected %s)" % want)
     if "panic" in out.split():
-        return "decoder-panic", "%s of client bytes panicked" % {"hdr": "ParseRequestHeader", "skip": "SkipTaggedFields", "frame": "ReadFrame", "rt": "ParseRequest"}.get(f[0], f[0])
+        what = {"hdr": "ParseRequestHeader", "skip": "SkipTaggedFields", "frame": "ReadFrame", "rt": "ParseRequest", "preq": "ParseRequest"}.get(f[0], f[0])
+        if f[0] == "preq" and FLEX:
+            raw = bytes.fromhex(f[2]) if f[2] != "-" else b""
+            h = ref_header(raw, FLEX)
+            if h.startswith("ok"):
+                w = h.split()
+                what += " (request %s v%s, client id %s, body %s)" % (
+                    kmsg_name(w[1]), w[2], "NULL" if w[4] == "cid=null" else "of %d bytes" % (0 if w[4] == "cid=-" else (len(w[4]) - 4) // 2),
+                    {"ok": "decodable", "err": "truncated/malformed (kmsg returns an error)", "unk": "of a key kmsg does not know"}.get(f[1], f[1]))
+        return "decoder-panic", "%s of client bytes panicked" % what
+    if f[0] == "preq" and FLEX:
+        # ParseRequest by the format: the header as the protocol guide reads it; then kmsg's verdict on the body (the `kdec` oracle)
+        raw = bytes.fromhex(f[2]) if f[2] != "-" else b""
+        h = ref_header(raw, FLEX)
+        if not h.startswith("ok") or int(h.split()[1]) not in FLEX or f[1] != "ok":
+            want = "err"
+        else:
+            want = h.split(" body=")[0]
+        if out != want:
+            return ("request-parse-differs-from-format",
+                    "ParseRequest (header + body) of a %s request: expected %s (header by the protocol guide, body verdict %s by kmsg alone)" % (
+                        "well-formed" if want != "err" else "malformed", want[:120], f[1]))
     if f[0] == "rt" and out != "rt ok":
         return "roundtrip-mismatch", "request key %s v%s encoded by kmsg's RequestFormatter did not parse back to the same header/body: %s" % (f[1], f[2], out[:120])
     if f[0] == "frames" and out.startswith("frames"):
@@ -403,6 +526,13 @@ def build_ops(ck, binary):
         hdr = struct.pack(">hhiH", 18, 0, ln, ln) + cid
         ENC[op] = hdr
         ops += [op, "hdr " + lib.hexs(hdr + b"\x01\x02")]
+    # (g) the BODY stage (ParseRequest = ParseRequestHeader + ParseRequestBody): client id null / empty / short / 32767 bytes x
+    #     body valid / cut at every length / garbage / trailing bytes x every kmsg (key, version); kmsg's own verdict on each body
+    #     (`kdec`, kmsg alone) is the decoder parameter of the model (parseRequest_total is stated over it)
+    bops = body_stage_ops(ck, binary, flexline, flex, rts, 1 if ck.quick() else 3)
+    if bops is None:
+        return None
+    ops += bops
     return ops
 
 
@@ -410,6 +540,8 @@ def nontrivial(op, out):
     f = op.split()
     if f[0] in ("rt", "enc"):
         return True
+    if f[0] == "preq":
+        return len(f[2]) > 20   # got past the fixed-size fields into the client id / body stage
     if f[0] == "hdr":
         return out.startswith("ok") or len(f[1]) > 24  # got past the fixed-size fields
     if f[0] == "frames":
@@ -498,12 +630,17 @@ def run(ck):
                       "header prefix; generated: headers with boundary keys/versions/client-id lengths and tagged sections with "
                       "boundary/lying sizes and over-long varints, well-formed headers with non-empty tagged sections (1..130 fields, tag/size "
                       "boundaries 0/127/128/16383/16384/2^63/2^64-1) + body, frames with lying lengths, every kmsg request key x version "
-                      "encoded by kmsg's RequestFormatter plus mutations.  Non-trivial = parsed ok, or long enough to get past "
+                      "encoded by kmsg's RequestFormatter plus mutations; body stage (`preq`): client id null/empty/short/32767 bytes x body "
+                      "valid / cut at EVERY length (served keys; selected lengths for the other kmsg keys) / garbage / trailing bytes x every kmsg "
+                      "(key, version), kmsg's own verdict on the body (`kdec`) being the decoder input of the model.  Non-trivial = parsed ok, or long enough to get past "
                       "the fixed-size fields; distinct = distinct op lines")
     ops = build_ops(ck, bins["h"])
+    if ops is None:
+        return      # the kmsg oracle pass died: reported as decoder-crash
     ck.cov["exhaustive"] = True
-    ck.partial = ("the header/frame theorems are complete (round trip for every well-formed tagged-field section); the request BODY "
-                  "codec is kmsg's (a parameter of the proof: exercised for every key x version, not modelled)")
+    ck.partial = ("the header/frame theorems are complete (round trip for every well-formed tagged-field section) and ParseRequestBody's own "
+                  "logic (unknown key, decode error path, header passed through) is modelled and proved total; the request BODY "
+                  "codec itself is kmsg's (a parameter of the proof: its verdict is an input, exercised for every key x version and every truncation, not modelled)")
     ok = check_stream(ck, bins["h"], ops, "main")
     run_conc(ck, bins)
     if not ok and not ck.violations:
